@@ -1,6 +1,6 @@
 """Lapsp (Andromeda PSP header codec sub-check: C19, C05, C06, C07, C01) configuration for ./check"""
 CONF = {
-    'interesting': ['truncated-prefix-of-valid', 'field-byte-extreme', 'length-extreme', 'empty-payload', 'field-extreme', 'roundtrip', 'dirty-buffer',
+    'interesting': ['truncated-prefix-of-valid', 'registered-decoder', 'field-byte-extreme', 'length-extreme', 'empty-payload', 'field-extreme', 'roundtrip', 'dirty-buffer',
                     'no-fixlengths', 'odd-payload', 'error-residue', 'residue-after-error', 'decode-error', 'malformed', 'seed'],
     'rule': 'APSP headers built field by field (fields random, all ones, all zero); each of the 40 header octets forced to 0x00, 0x80, 0xff in turn; '
             'inputs of 36..44 octets around the 40-octet bound; every truncation 0..41; decoded into fresh and reused objects; serialized under all '
